@@ -1,6 +1,7 @@
 """C04 - named bind group fields reach their own slot; groups bind at own index."""
 import itertools
 from common import coq_options, coq_string
+import obs
 
 ID = "C04"
 REQUIRES = ["Agree", "C04Spec", "Truth"]
@@ -77,12 +78,35 @@ def cases(rng, tier):
     return out
 
 
+def run_cases(plain, cases_, workdir, tag):
+    return obs.attach(plain, cases_, workdir, tag, lambda c: True, 40 if "search" not in tag else 0)
+
+
 def verdict_expr(c, r, ir, real):
+    ob = "true"
+    if "obs" in r and r.get("result") == "ok":
+        ok, why = obs.check_c04(c["truth"], r) if obs.usable(r) else (False, "module did not build / run on the shim: %s" % str(r.get("obs"))[:300])
+        c["note"] = why
+        ob = "true" if ok else "false"
+    return _verdict(c, r, ir, real).replace("OBS", ob)
+
+
+def _verdict(c, r, ir, real):
     t = "[" + "; ".join("(%d%%N, [%s])" % (g, "; ".join("(%s, %s, %d%%N)" % (coq_string(n), k, b) for n, k, b in vs))
                         for g, vs in c["truth"]) + "]"
     return ('[wf %s; agree_res agree_C04 (gen %s ""%%string None %s) %s; '
-            'on_ok %s (fun o => C04_ok %s o && truth_groups_ok o %s)]'
+            'on_ok %s (fun o => C04_ok %s o && truth_groups_ok o %s) && OBS]'
             % (ir, ir, coq_options(c["opts"]), real, real, ir, t))
+
+
+def verdict_expr_noout(c, r, ir):
+    # the returned text does not match the templates any more: decide (b) by what the compiled module does
+    ob = "true"
+    if "obs" in r and r.get("result") == "ok":
+        ok, why = obs.check_c04(c["truth"], r) if obs.usable(r) else (False, "module did not build / run on the shim: %s" % str(r.get("obs"))[:300])
+        c["note"] = "extraction failed (%s); behaviour: %s" % (r.get("extract_err"), why)
+        ob = "true" if ok else "false"
+    return "[true; false; %s]" % ob
 
 
 def nontrivial(c, r):
